@@ -267,7 +267,7 @@ func (p *Prog) coqBase() string {
 		return lib.CoqList(ks)
 	}
 	switch p.Op {
-	case "skip", "pass":
+	case "skip", "pass", "direct":
 		return "SId"
 	case "node":
 		return lib.CoqApp("SNode", p.W.coq(), lib.CoqN(uint64(p.N.ID)), p.N.coq())
@@ -599,6 +599,8 @@ func stats(p *Prog) pstats {
 			feat["passthrough"] = true
 		case "skip":
 			feat["emptyalt"] = true
+		case "direct":
+			feat["directedge"] = true
 		case "loop":
 			st.branches++
 			feat["loop"] = true
